@@ -396,39 +396,42 @@ func c13sRun(c c13sCase) c13sObs {
 	c13s.log, c13s.failAt, c13s.failErr, c13s.returned = nil, c.FailAt, c.FailErr, nil
 	c13s.mu.Unlock()
 	var res *gorm.DB
-	switch c.Op {
-	case "create":
-		res = db.Create(c13sValue(*t, c, false, owner))
-	case "save-new":
-		res = db.Save(c13sValue(*t, c, false, owner))
-	case "save-existing":
-		res = db.Save(c13sValue(*t, c, true, false))
-	case "updates":
-		res = db.Model(c13sValue(*t, c, true, false)).Updates(map[string]interface{}{"tag": "upd"})
-	case "delete":
-		res = db.Delete(c13sValue(*t, c, true, false))
-	case "delete-select":
-		res = db.Select("Kids").Delete(c13sValue(*t, c, true, false))
-	case "find", "find-preload":
-		h := db.Order("id")
-		if c.Op == "find-preload" {
-			h = h.Preload("Kids")
+	res = c13Guard(func() *gorm.DB {
+		switch c.Op {
+		case "create":
+			res = db.Create(c13sValue(*t, c, false, owner))
+		case "save-new":
+			res = db.Save(c13sValue(*t, c, false, owner))
+		case "save-existing":
+			res = db.Save(c13sValue(*t, c, true, false))
+		case "updates":
+			res = db.Model(c13sValue(*t, c, true, false)).Updates(map[string]interface{}{"tag": "upd"})
+		case "delete":
+			res = db.Delete(c13sValue(*t, c, true, false))
+		case "delete-select":
+			res = db.Select("Kids").Delete(c13sValue(*t, c, true, false))
+		case "find", "find-preload":
+			h := db.Order("id")
+			if c.Op == "find-preload" {
+				h = h.Preload("Kids")
+			}
+			sh := c
+			sh.N = 0
+			if sh.Shape == "single" {
+				sh.Shape = "valslice"
+			}
+			res = h.Find(c13sValue(*t, sh, false, false))
+		case "first":
+			res = db.First(t.New())
+		case "foc-new", "foc-existing":
+			q := t.New()
+			c13sSet(reflect.ValueOf(q).Elem(), "Name", "r0")
+			res = db.Where(q).FirstOrCreate(t.New())
+		default:
+			panic("c13s: unknown op " + c.Op)
 		}
-		sh := c
-		sh.N = 0
-		if sh.Shape == "single" {
-			sh.Shape = "valslice"
-		}
-		res = h.Find(c13sValue(*t, sh, false, false))
-	case "first":
-		res = db.First(t.New())
-	case "foc-new", "foc-existing":
-		q := t.New()
-		c13sSet(reflect.ValueOf(q).Elem(), "Name", "r0")
-		res = db.Where(q).FirstOrCreate(t.New())
-	default:
-		panic("c13s: unknown op " + c.Op)
-	}
+		return res
+	})
 	if res.Error != nil {
 		obs.Err = res.Error.Error()
 	}
